@@ -339,7 +339,8 @@ def replay_behaviour(ctx: Ctx, loop: Any, beh: List[Any], consts: dict, src: str
             if drift:
                 break
     if drift:
-        ctx.drift(drift.split(":")[0] + ":" + drift.split(":")[1] if drift.count(":") else drift)
+        parts = drift.split(":")
+        ctx.drift(parts[0] if parts[0] in ("ready-order", "ready-after-tick", "result", "timer-order") else ":".join(parts[:3]))
         ctx.extra.setdefault("drift_examples", [])
         if len(ctx.extra["drift_examples"]) < 5:
             ctx.extra["drift_examples"].append({"drift": drift, "side": consts["side"],
@@ -628,8 +629,13 @@ def run(ctx: Ctx) -> None:
         require_clean(res, f"WsSession[{side}, as-coded, {inv}]")
         ctx.add_model(f"WsSession[{side},as-coded,{inv} alone -> {clause}]", res, exhaustive=False)
         if res.violated == inv:
-            ctx.violation(clause, f"{side}: model: " + " ".join(a for a, _ in res.trace[1:]),
-                          {"model_trace": [a for a, _ in res.trace]}, "model")
+            if any(v.clause == clause and v.source == "trace" for v in ctx.violations):
+                ctx.violation(clause, f"{side}: model: " + " ".join(a for a, _ in res.trace[1:]),
+                              {"model_trace": [a for a, _ in res.trace]}, "model")
+            else:
+                # the as-coded model still deviates but no execution of the code did: the code was repaired
+                # (then the Fix* constant of the as-coded configuration is stale) - not a violation
+                ctx.drift(f"as-coded-model-stale:{clause}")
         elif res.violated:
             ctx.violation(f"model:{res.violated}", f"{side}: as-coded model", {"model_trace": [a for a, _ in res.trace]}, "model")
     pool.shutdown()
